@@ -16,7 +16,15 @@ Res == {[r |-> "ident", cap |-> 512], [r |-> "number", cap |-> 512], [r |-> "str
 Lens(cap) == {1, cap \div 2, cap - 1, cap, cap + 1, cap + 2, 2 * cap, 2 * cap + 1} \cup (IF cap <= 4096 THEN {16 * cap} ELSE {})
 \* recursion in the code follows the nesting of the input: these are also tried far beyond any stack
 Deep == {"nest_paren", "nest_unary", "nest_unary_paren", "nest_unary_operand", "nest_if", "nest_ifexpr_not", "nest_ifexpr_paren"}
-Init == \E x \in Res : \E n \in Lens(x.cap) \cup (IF x.r \in Deep THEN {8192, 300000} ELSE {}) :
+\* statements that only one of the two passes sees (the guard asks for a name that is defined further down, so
+\* its answer differs between the passes): the symbol table is locked and the macro table reset in pass 2
+Guards == {"p2_ifdef", "p2_if_defined", "p2_else", "p1_ifndef", "p1_else"}
+Laters == {"label", "set", "equ"}
+Stmts  == {"set", "set_existing", "label", "db", "insn", "macro", "define", "equ", "org", "scope", "func", "export",
+           "include", "binfile", "repeat", "align", "entry_point", "call_undefined", "undef"}
+PassCases == {[res |-> "pass_only", cap |-> 1, len |-> 1, guard |-> g, later |-> d, stmt |-> t] : g \in Guards, d \in Laters, t \in Stmts}
+Init == \/ c \in PassCases
+        \/ \E x \in Res : \E n \in Lens(x.cap) \cup (IF x.r \in Deep THEN {8192, 300000} ELSE {}) :
           n >= 1 /\ c = [res |-> x.r, cap |-> x.cap, len |-> n]
 Next == FALSE /\ UNCHANGED c
 Emit == PrintT("CASE " \o ToJson(c))
